@@ -148,7 +148,12 @@ PROPS = {
                     "identity / backing-array addresses), so cap after a growth is an echo of the observed capacity; oracle only: concurrent use "
                     "(P programs; the aligned allocator's package-level pools shared between instances are one bag per case in the model) "
                     "and address-level disjointness (the model's handle is (region, len) at offset 0: that the allocators never return an "
-                    "interior slice is checked by c20-alias, not proved); the content of the bytes added by Realloc is unspecified",
+                    "interior slice is checked by c20-alias, not proved); the content of the bytes added by Realloc is unspecified; FOREIGN "
+                    "buffers (not handed out by the allocator: nil / empty slices, odd capacities, capacities above the thresholds, "
+                    "capacities that are a class size) are part of the programs (op G / Op.foreign) for all three allocators - the aligned "
+                    "allocator pools a foreign buffer whose capacity is a class size (by design) and, after the repair, ignores cap 0 "
+                    "(c20_pooled_class_cap); a foreign capacity that is a multiple of 32 but not a class size (96) is outside the contract "
+                    "(c20_aligned_foreign_cap_counterexample) and rejected by model and generator",
             "technique": "Lean 4 proof (heap invariant by induction over op sequences) + differential correspondence"},
         "lean": ["NbioVerif.Properties.C20", srcgen.BRIDGE_ALLOC], "drivers": ["allocdrv"], "harness": ["halloc"],
         "facts": [srcgen.src_facts],
